@@ -653,7 +653,25 @@ class Engine:
 
     def _concrete_loop(self, st, fn, fid, bb):
         """the loop at bb is driven by an iterator over a literal array whose state is known on this path"""
-        for l in loop_assigned_locals(fn, fn.cfg.loops[bb]):
+        loops = fn.cfg.loops
+        body = loops[bb]
+        # a `for` loop: the head block calls next(&mut it); the loop is concrete iff THAT iterator walks a literal array
+        hb = fn.blocks[bb] if bb < len(fn.blocks) and fn.blocks[bb]['id'] == bb else next((b_ for b_ in fn.blocks if b_['id'] == bb), None)
+        if hb is not None and hb['term']['k'] == 'call' and ((hb['term']['callee'].get('pretty') or '').endswith('::next')):
+            its = [s_['rv']['place']['local'] for s_ in hb['stmts'] if s_['k'] == 'assign' and s_['rv']['k'] == 'ref' and s_['rv'].get('mut')
+                   and not s_['rv']['place'].get('proj')]
+            if its:
+                v = st.frames[fid].get(its[-1])
+                return isinstance(v, tuple) and bool(v) and v[0] == 'iterstate'
+
+        # locals driven by a loop nested inside this one (an inner `for x in CONST_ARRAY`) say nothing about this loop
+        nested = set()
+        for h2, b2 in loops.items():
+            if h2 != bb and h2 in body and b2 < body:
+                nested |= set(loop_assigned_locals(fn, b2))
+        for l in loop_assigned_locals(fn, body):
+            if l in nested:
+                continue
             v = st.frames[fid].get(l)
             if isinstance(v, tuple) and v and v[0] == 'iterstate':
                 return True
